@@ -419,10 +419,10 @@ func (s *sess) checkSaveHandler(rule string) {
 				continue
 			}
 			nSave++
-			if save.Call.Args[1] != ssa.Value(fn.Params[0]) {
+			if save.Call.Args[1] != ssa.Value(an.HandlerArg(fn)) {
 				bad = append(bad, "the value saved is not the message being sent: "+an.Render(save.Call.Args[1]))
 			}
-			if r := an.Render(save.Call.Args[2]); r != fn.Params[0].Name()+".HeaderBuilder().MsgSeqNum()" {
+			if r := an.Render(save.Call.Args[2]); r != an.HandlerArg(fn).Name()+".HeaderBuilder().MsgSeqNum()" {
 				bad = append(bad, "the message is saved under "+r+", not under its own MsgSeqNum")
 			}
 			if sd := storageSide(save.Call.Args[0]); sd != "outgoing" {
